@@ -119,7 +119,7 @@ PHONE_TEMPLATES = ['(425) 555-01dd', '425-555-0ddd', '+1 425 555 0ddd', '1-425-5
 
 
 def body(ch):
-    part = ch.pick('part', ('ipv4', 'ipv4-near', 'ipv6', 'ipv6-hextet', 'ipv6-near', 'guid', 'guid-near', 'email', 'url',
+    part = ch.pick('part', ('ipv4', 'ipv4-near', 'ipv6', 'ipv6-hextet', 'ipv6-near', 'ip-several', 'guid', 'guid-near', 'email', 'url',
                             'hashtag', 'mention', 'phone'))
     if part == 'ipv4':
         pos = ch.pick('position', range(4))
@@ -207,6 +207,37 @@ def body(ch):
             except ValueError:
                 return 'value-invalid'
         expect_one(ch, 'ipv6-hextet', 'ip', lit, '', '', vc)
+    elif part == 'ip-several':
+        # several addresses in one query, every ordered pair (and triple) of a pool mixing both families and a malformed token
+        pool = ['10.0.0.1', '255.255.255.255', '001.02.3.4', 'fe80::1', '::1', '1:2:3:4:5:6:7:8', 'FE06::1::2', '1.2.3.256']
+        a = ch.pick('first', pool)
+        b = ch.pick('second', pool)
+        c = ch.pick('third', [None] + pool[:4])
+        sep = ch.pick('separator', (' ', ' via ', ', '))
+        lits = [x for x in (a, b, c) if x]
+        q = 'route ' + sep.join(lits)
+        got = ents(M['ip'], q)
+        if not sound_ip(ch, q, got, 'ip-several'):
+            return
+        pos, want = len('route '), []
+        for x in lits:
+            valid = True
+            try:
+                if ':' in x:
+                    ipaddress.IPv6Address(x)
+                else:
+                    valid = all(octet_ok(o) for o in x.split('.')) and x.count('.') == 3
+            except ValueError:
+                valid = False
+            if valid:
+                want.append((pos, pos + len(x) - 1))
+            pos += len(x) + len(sep)
+        missing = [w for w in want if w not in [(g[0], g[1]) for g in got]]
+        if missing:
+            ch.fail('ip-several|valid-address-missed|%s' % ('v6-before-v4' if ':' in a and '.' in (b + (c or '')) and ':' not in b else 'other'),
+                    {'query': q, 'expected_spans': want, 'observed': got})
+        else:
+            ch.ok(case=q, nontrivial=len(want) >= 2, outcome='several-%d' % len(want))
     elif part == 'ipv6-near':
         q = ch.pick('query', ('1:2:3:4:5:6:7:8:9', '1::2::3', '1:2:3:4:5:6:7', ':::', '1:::2', '12345::1', 'g::1',
                               '1:2:3:4:5:6:7::8:9', '::1::', 'x::1', '1::x', '1:2:3:4:5:6:7:8::'))
